@@ -5,6 +5,12 @@
    / and % truncate; division by zero and INT64_MIN / -1 raise SIGFPE; assert prints and exits 1;
    `let x = e` inside a block becomes `int64_t x = e;` whose initialiser already sees the NEW x, so an
    initialiser that reads a shadowed x reads an indeterminate value: nat_outcome NUndef.
+   Not modelled (open finding lang:for-bound-reevaluated): the emitted `for (i = lo; i < hi; i++)` re-evaluates hi before
+   every iteration; the model evaluates the bounds once, as the language prescribes -- the two differ only when the body
+   assigns a variable hi reads or hi has an effect, which the correspondence stream keeps apart.
+   Arrays: a literal is the C call dynarray_literal_int(n, e1, .., en) and (at a i) is nl_array_at_int(a, i), so their
+   operands are evaluated in the order [ord] like the arguments of any other call; an index outside 0 <= i < length
+   fails the assertion in dyn_array_get_int (src/runtime/dyn_array.c): abort().
    Tie: behavioural (stdout + exit of the binary nanoc builds), tools/props/c01.py / c02.py.  Definitions only. *)
 From Coq Require Import ZArith NArith List Bool.
 From NV Require Import Lang.Ast.
@@ -13,7 +19,7 @@ Local Open Scope Z_scope.
 
 Inductive arg_order := LtoR | RtoL.
 
-Inductive nfault := NFAssert | NFSigfpe | NFSigfpeOv.
+Inductive nfault := NFAssert | NFSigfpe | NFSigfpeOv | NFOob.     (* NFOob: the runtime's index assertion fails: abort() *)
 
 Inductive nres (A : Type) :=
   | NOk (a : A) (out : list N)
@@ -82,6 +88,13 @@ Definition nat_binop (o : binop) (a b : value) : nopres :=
 
 Definition of_nopres (r : nopres) (out : list N) : nres value :=
   match r with NOV v => NOk v out | NOF f => NFault f out | NOStuck => NStuck end.
+
+(* nl_array_at_int(a, i) once both operands have values *)
+Definition nat_at (va vi : value) (out : list N) : nres value :=
+  match va, vi with
+  | VArr l, VInt k => match arr_get l k with Some z => NOk (VInt z) out | None => NFault NFOob out end
+  | _, _ => NStuck
+  end.
 
 Fixpoint nat_bind_params (ps : list (ident * ty)) (vs : list value) : option nenv :=
   match ps, vs with
@@ -160,6 +173,33 @@ Fixpoint nat_expr (fuel : nat) (genv en : nenv) (e : expr) (out : list N) {struc
                     | _ => NStuck end)
               end
           end)
+    | EArr es =>
+        let fix eval_args (l : list expr) (out0 : list N) : nres (list value) :=
+          match l with
+          | [] => NOk [] out0
+          | a :: r => nbind (nat_expr fuel' genv en a out0) (fun v out1 =>
+                      nbind (eval_args r out1) (fun vs out2 => NOk (v :: vs) out2))
+          end in
+        let fix eval_args_rl (l : list expr) (out0 : list N) : nres (list value) :=     (* last element first *)
+          match l with
+          | [] => NOk [] out0
+          | a :: r => nbind (eval_args_rl r out0) (fun vs out1 =>
+                      nbind (nat_expr fuel' genv en a out1) (fun v out2 => NOk (v :: vs) out2))
+          end in
+        nbind (match ord with LtoR => eval_args es out | RtoL => eval_args_rl es out end) (fun vs out1 =>
+          match ints_of vs with Some l => NOk (VArr l) out1 | None => NStuck end)
+    | EAt a i =>
+        match ord with
+        | LtoR =>
+            nbind (nat_expr fuel' genv en a out) (fun va out1 =>
+            nbind (nat_expr fuel' genv en i out1) (fun vi out2 => nat_at va vi out2))
+        | RtoL =>
+            nbind (nat_expr fuel' genv en i out) (fun vi out1 =>
+            nbind (nat_expr fuel' genv en a out1) (fun va out2 => nat_at va vi out2))
+        end
+    | ELen a =>
+        nbind (nat_expr fuel' genv en a out) (fun va out1 =>
+          match va with VArr l => NOk (VInt (Z.of_nat (length l))) out1 | _ => NStuck end)
     end
   end
 with nat_stmt (fuel : nat) (genv en : nenv) (s : stmt) (out : list N) {struct fuel} : nres (nctl * nenv) :=
